@@ -42,9 +42,12 @@ def Pres.serView : Pres → Pres
 /-- cardinality / list layout of a member.
 `single`          one element `<tag>content</tag>`
 `wrapped member`  `s.list(tag, member, iter)` / `d.list_content(member)`: `<tag><member>…</member>*</tag>`
-`flat`            `s.flattened_list(tag, iter)` / `get_or_insert_with(List::new).push`: `<tag>…</tag>*` -/
+`flat`            `s.flattened_list(tag, iter)` / `get_or_insert_with(List::new).push`: `<tag>…</tag>*`
+`attr`            not an element: the attribute `tag` of the start tag of the struct's own element (Smithy
+                  `xmlAttribute`; since 1dc4ea8): listed by `fn attributes(&self)` / read by `d.attribute(tag)`.
+                  Only in the tree schema — the flat table entries carry the flag `FieldDef.attr` instead. -/
 inductive Shape where
-  | single | wrapped (member : Bytes) | flat
+  | single | wrapped (member : Bytes) | flat | attr
   deriving DecidableEq, Repr
 
 /-- content kind of a member; `τ` is the enumeration of struct/union type names -/
@@ -56,8 +59,10 @@ inductive Kind (τ : Type) where
   | ref (t : τ)    -- struct or union type `t`
   deriving DecidableEq, Repr
 
-/-- one member of a struct. `attr` / `nsdecl` are Smithy-only facts (`xmlAttribute`, member-level `xmlNamespace`);
-the Rust tables always carry `false` — s3s has no attribute support. -/
+/-- one member of a struct. `attr`: the member is an attribute of the start tag of the struct's element (Smithy
+`xmlAttribute`; in the Rust tables: listed by `fn attributes` / read by `d.attribute`, since 1dc4ea8). `nsdecl`: the
+start tag of the member's element declares a namespace prefix (Smithy: member-level `xmlNamespace` with a prefix; the
+Rust tables carry `false`: what the serialiser writes there follows from the model, `S3V.C13.declares`). -/
 structure FieldDef (τ : Type) where
   tag : Bytes
   pres : Pres
@@ -195,7 +200,7 @@ def resolveKind : Nat → Kind τ → Option Sch
     | some (.struct fs) =>
       (fs.foldr (fun f acc =>
         match resolveKind n f.kind, acc with
-        | some s, some r => some (Flds.cons f.tag f.pres f.shape s r)
+        | some s, some r => some (Flds.cons f.tag f.pres (if f.attr then .attr else f.shape) s r)
         | _, _ => none) (some .nil)).map .struct
     | some (.union vs) =>
       (vs.foldr (fun v acc =>
